@@ -29,6 +29,13 @@ def run(prog, R, tier="quick", only_rule=None):
     c11a(prog, R)
     c11b(prog, R)
     c11c(prog, R)
+    # the interchangeable index readers / table iterator behave alike from both ends (a partitioned index differs from a
+    # full one only in how many levels are walked)
+    from rules.props import c03
+    c03.c03k(prog, R, rid="C11.d")
+    # full vs partitioned filter: same hash, same probe sequence, and a partition index that never hides a partition
+    from rules.props import c12
+    c12.c12a(prog, R, rid="C11.e")
 
 
 def tuple_of(h, into_only=True):
